@@ -137,6 +137,11 @@ def main():
     cases.append(("G6<'_, Option<Read<'_, D<1>>>>", "T(r1,W5d,r1)"))
     structs.append("#[derive(shred::SystemData)]\npub struct G7<'a: 'b, 'b> { a: Read<'a, D<0>>, b: Write<'b, D<1>>, c: Option<Write<'b, D<2>>> }")
     cases.append(("G7<'_, '_>", "T(R0d,W1d,w2)"))
+    # fields of TUPLE type mixing read and write members (flat and nested)
+    structs.append("#[derive(shred::SystemData)]\npub struct G8<'a> { pair: (Read<'a, D<0>>, Write<'a, D<1>>), tail: Option<Read<'a, D<2>>> }")
+    cases.append(("G8<'_>", "T(T(R0d,W1d),r2)"))
+    structs.append("#[derive(shred::SystemData)]\npub struct G9<'a>(pub (Write<'a, D<3>>, (Read<'a, D<4>>, ())), pub Read<'a, D<5>>, pub (Option<Write<'a, D<0>>>, ReadExpect<'a, D<1>>));")
+    cases.append(("G9<'_>", "T(T(W3d,T(R4d,U)),R5d,T(w0,R1p))"))
     # nested derived inside tuples
     cases.append(("(S3<'_>, Read<'_, D<5>>, (S2<'_>,),)", "T(%s,R5d,T(%s))" % ([c for c in cases if c[0] == "S3<'_>"][0][1], [c for c in cases if c[0] == "S2<'_>"][0][1])))
 
